@@ -140,7 +140,9 @@ func derefPtr(t reflect.Type, v reflect.Value) (reflect.Type, reflect.Value, ref
 	// loop to handle **type instances
 	var k reflect.Kind
 	for {
-		if isPtr(t) {
+		// only follow a pointer that actually points
+		// somewhere; a nil pointer is left as it is.
+		if isPtr(t) && v.Kind() == reflect.Ptr && !v.IsNil() {
 			t = t.Elem()
 			v = v.Elem()
 			continue
